@@ -110,7 +110,15 @@ def gen_cases(rng, tier):
             if len(parts) > 2 and rng.random() < 0.3:
                 # some reads arrive while the application is still inside dataReceived for the previous one
                 c['nested'] = sorted(rng.sample(range(1, len(parts)), rng.randint(1, min(3, len(parts) - 1))))
+                # ... or inside the callback of connect() / when_done() (whichever of the two runs first takes the read)
+                c['from_done'] = rng.random() < 0.5
             yield c
+    # the success reply coalesced with the first application bytes, the next read delivered from inside the connect() callback
+    for tail1, tail2 in [(b'HELLO ', b'WORLD'), (b'x' * 40, b'y' * 40), (b'', b'late')]:
+        ok = bytes.fromhex('0500') + bytes.fromhex('05000001010203040050')
+        for parts in ([ok + tail1, tail2], [ok[:2], ok[2:] + tail1, tail2], [ok[:5], ok[5:] + tail1, tail2, b'!']):
+            yield {'req': 'CONNECT', 'host': 'example.com', 'port': 80, 'chunks': [p.hex() for p in parts], 'lost': None,
+                   'nested': [len(parts) - 1 if len(parts) < 4 else 2], 'from_done': True}
 
 
 def ops_of(c):
@@ -127,6 +135,7 @@ def ops_of(c):
 
 def run_impl(c):
     im = socksh.Impl(c['req'], c['host'], c['port'])
+    im.reenter_from_done = bool(c.get('from_done'))
     outs = []
     ops = ops_of(c)
     for i, op in enumerate(ops):
@@ -134,6 +143,16 @@ def run_impl(c):
     if not any(o.startswith('exc ') for o in outs):
         outs += ['late ' + o for o in im.late()]
     return outs
+
+
+def merge_data(outs):
+    res = []
+    for o in outs:
+        if o.startswith('data ') and res and res[-1].startswith('data '):
+            res[-1] = 'data ' + (res[-1][5:] if res[-1][5:] != '-' else '') + (o[5:] if o[5:] != '-' else '')
+        else:
+            res.append(o)
+    return res
 
 
 def truncate_at_exc(outs):
@@ -207,7 +226,12 @@ def run_cases(cases, drv, tier):
                 if x != '-':
                     mouts += x.split(';')
             model = truncate_at_exc(mouts)
-            corr_ok = im == model
+            if c.get('from_done'):
+                # a read delivered from inside the connect() callback reaches the application together with what was still
+                # buffered: the bytes and their order are compared, not how many dataReceived calls carry them
+                corr_ok = merge_data(im) == merge_data(model)
+            else:
+                corr_ok = im == model
             spec = socksh.parse_obs(o[-1])
             lost = any(op[0] == 'lost' for op in ops_of(c))
             if lost:
